@@ -211,7 +211,7 @@ fn api_workload(run: &mut Run, rng: &mut Rng, fr: &gen::Frame, n: u64) {
 
 fn run(ctx: &Ctx) -> Run {
     silence_panics();
-    let exhaustive_to = if ctx.quick() { 9 } else { 10 };
+    let exhaustive_to = if ctx.quick() { 9 } else { 11 };
     let threads = ctx.threads;
     let mut out = parallel(threads, |w, run| {
         let mut rng = ctx.rng("C05", w);
